@@ -55,6 +55,41 @@ MUTANTS = [
      "old": "        lock_held = [True]\n",
      "new": "        instance.unlock()\n        lock_held = [False]\n",
      "note": "stream gives the lock up right away: other requests may interleave"},
+    # ---- C19
+    {"id": "c19-state-not-deepcopied", "property": "C19", "file": S,
+     "old": "        session_state = copy.deepcopy(instance['instance'].session_state)\n",
+     "new": "        session_state = instance['instance'].session_state\n"},
+    {"id": "c19-load-skips-decompression", "property": "C19", "file": ESA,
+     "old": "        state = self._load_state()\n        if(self.compress):", "new": "        state = self._load_state()\n        if(False):"},
+    {"id": "c19-step-restored-off-by-one", "property": "C19", "file": B,
+     "old": "            state[\"lock\"] = False\n        self.session_state = state",
+     "new": "            state[\"lock\"] = False\n        state[\"step\"] = state[\"step\"] - state[\"dt\"]\n        self.session_state = state"},
+    {"id": "c19-save-drops-last-result", "property": "C19", "file": ESA,
+     "old": "        data = {\n            \"data\": {\n                \"state\": jsonpickle.dumps(state.state),",
+     "new": "        if state.state and state.state.get(\"results_log\"):\n            state.state[\"results_log\"].pop(list(state.state[\"results_log\"])[-1])\n        data = {\n            \"data\": {\n                \"state\": jsonpickle.dumps(state.state),"},
+    {"id": "c19-load-instance-loses-settings-log", "property": "C19", "file": ESA,
+     "old": "            decoded_data = jsonpickle.loads(instance_data[\"data\"][\"state\"])\n",
+     "new": "            decoded_data = jsonpickle.loads(instance_data[\"data\"][\"state\"])\n            decoded_data[\"settings_log\"] = {}\n"},
+    # ---- C20
+    {"id": "c20-startup-chokes-on-bad-file", "property": "C20", "file": S,
+     "old": "                if instance_data is None:\n                    continue # not a readable state file, e.g. damaged by a crash or not an instance at all\n", "new": ""},
+    {"id": "c20-save-before-step", "property": "C20", "file": S,
+     "old": "        try:\n            if not request.is_json:\n                result = instance.run_step()",
+     "new": "        if self._external_state_adapter != None:\n            self._external_state_adapter.save_instance(self._instance_manager._get_instance_state(instance_uuid))\n        try:\n            if not request.is_json:\n                result = instance.run_step()",
+     "edits": [("        if self._external_state_adapter != None:\n            self._external_state_adapter.save_instance(self._instance_manager._get_instance_state(instance_uuid))\n\n        resp.headers['Content-Type'] = 'application/json'\n        resp.headers['Access-Control-Allow-Origin']='*'\n        return resp\n\n    @token_required\n    def _run_steps_resource",
+                "        resp.headers['Content-Type'] = 'application/json'\n        resp.headers['Access-Control-Allow-Origin']='*'\n        return resp\n\n    @token_required\n    def _run_steps_resource")],
+     "note": "run-step saves the state before taking the step: the acknowledged step is not durable"},
+    {"id": "c20-replay-ignores-step-settings", "property": "C20", "file": B,
+     "old": "                self.run_step(settings=settings_log.get(logged_step))", "new": "                self.run_step(settings=None)"},
+    {"id": "c20-replay-skips-session-settings", "property": "C20", "file": B,
+     "old": "                            scenario_object.configure_settings(state[\"settings\"][manager.name][scenario])\n                        self.reset_scenario_cache(scenario_manager=manager.name, scenario=scenario)\n\n        settings_log",
+     "new": "                            pass\n                        self.reset_scenario_cache(scenario_manager=manager.name, scenario=scenario)\n\n        settings_log"},
+    {"id": "c20-no-replay", "property": "C20", "file": B,
+     "old": "        if getattr(self, \"_session_restored\", False):\n            self._replay_session()\n", "new": ""},
+    {"id": "c20-restore-deletes-file", "property": "C20", "file": ESA,
+     "old": "            return InstanceState(decoded_data, instance_id, datetime.datetime.now(), timeout, step)",
+     "new": "            os.remove(os.path.join(self.path, str(instance_uuid) + \".json\"))\n            return InstanceState(decoded_data, instance_id, datetime.datetime.now(), timeout, step)",
+     "note": "loading consumes the file: a second crash before the next save loses the instance"},
     # ---- C15
     {"id": "c15-undecorated-stop-instance", "property": "C15", "file": S,
      "old": "    @token_required\n    def _stop_instance_resource", "new": "    def _stop_instance_resource"},
